@@ -190,20 +190,38 @@ Lemma dm_lookup t n :
   /\ lookup "_sorted" d = Some (DvSorted (l_sorted t)).
 Proof. cbv zeta. repeat split; reflexivity. Qed.
 
-Lemma next_id_gt n : (n < Z.to_nat (k_next_id (Z.of_nat n)))%nat.
-Proof. unfold k_next_id. lia. Qed.
+(* the characterising lemmas of the id kernels: the object gets the counter value (its own id for _mutate) and the
+   counter moves beyond it.  Everything the proofs know about the three kernels. *)
+Lemma setstate_ids_spec n : fst (setstate_ids n) = n /\ (n < snd (setstate_ids n))%nat.
+Proof. unfold setstate_ids, to_nat2, k_setstate_ids. cbv zeta. cbn [fst snd]. split; lia. Qed.
+Lemma init_ids_spec n : fst (init_ids n) = n /\ (n < snd (init_ids n))%nat.
+Proof. unfold init_ids, to_nat2, k_init_ids. cbv zeta. cbn [fst snd]. split; lia. Qed.
+Lemma mutate_ids_spec own n : fst (mutate_ids own n) = own /\ (n <= snd (mutate_ids own n))%nat.
+Proof. unfold mutate_ids, to_nat2, k_mutate_ids. cbv zeta. cbn [fst snd]. split; lia. Qed.
 
 (* unpickling computes the closed form `restore` *)
 Theorem unpickle_eq n t : exists n', unpickle n t = Some (restore n t, n') /\ (n < n')%nat.
 Proof.
-  exists (Z.to_nat (k_next_id (Z.of_nat n))). split; [|apply next_id_gt].
-  unfold unpickle, dm_setstate. cbv zeta.
+  destruct (setstate_ids_spec n) as [Hf Hlt].
+  exists (snd (setstate_ids n)). split; [|exact Hlt].
+  unfold unpickle, dm_setstate. cbv zeta. rewrite Hf.
   destruct (dm_lookup t n) as (H1 & H2 & H3 & H4 & H5). cbv zeta in H1, H2, H3, H4, H5.
   rewrite H1, H2, H3, H4, H5.
   rewrite map_map. rewrite (all_some_map _ (restore_col false)) by (intro; apply col_roundtrip).
   rewrite index_roundtrip.
   rewrite (reattach_closed _ (l_names t)) by apply to_list_perm.
   reflexivity.
+Qed.
+
+(* unpickling is the EvRestore event of the counter machine *)
+Lemma unpickle_counter n t r n' : unpickle n t = Some (r, n') -> l_fam r = fst (setstate_ids n) /\ n' = snd (setstate_ids n).
+Proof.
+  intro H. destruct (setstate_ids_spec n) as [Hf _].
+  unfold unpickle, dm_setstate in H. cbv zeta in H.
+  destruct (dm_lookup t (fst (setstate_ids n))) as (H1 & H2 & H3 & H4 & H5). cbv zeta in H1, H2, H3, H4, H5.
+  rewrite H1, H2, H3, H4, H5 in H.
+  destruct (all_some _); [|discriminate]. destruct (index_setstate _); [|discriminate].
+  inversion H; subst. split; reflexivity.
 Qed.
 
 (* ---------- same names, kinds, order, cells *)
